@@ -310,7 +310,9 @@ inline Encoded encode(const Geom &g, const Opt &o) {
     enc->SetSpeedOptions(o.es, o.ds);
     if (o.method >= 0) enc->SetEncodingMethod(g.is_mesh ? (o.method ? MESH_EDGEBREAKER_ENCODING : MESH_SEQUENTIAL_ENCODING)
                                                         : (o.method ? POINT_CLOUD_KD_TREE_ENCODING : POINT_CLOUD_SEQUENTIAL_ENCODING));
-    if (o.submethod >= 0) enc->SetEncodingSubmethod(o.submethod);
+    // NB: ExpertEncoder::SetEncodingSubmethod stores "encoding_submethod", which no encoder reads (the Edgebreaker encoder reads the global
+    // option "edgebreaker_method"): the documented call alone never selects the valence coder for meshes under 1000 faces (observation O4).
+    if (o.submethod >= 0) { enc->SetEncodingSubmethod(o.submethod); enc->options().SetGlobalInt("edgebreaker_method", o.submethod); }
     enc->SetUseBuiltInAttributeCompression(o.builtin);
     if (o.split >= 0) enc->options().SetGlobalBool("split_mesh_on_seams", o.split != 0);
     for (int a = 0; a < (int)o.qbits.size(); ++a) {
@@ -328,6 +330,7 @@ inline Encoded encode(const Geom &g, const Opt &o) {
     enc.SetSpeedOptions(o.es, o.ds);
     if (o.method >= 0) enc.SetEncodingMethod(g.is_mesh ? (o.method ? MESH_EDGEBREAKER_ENCODING : MESH_SEQUENTIAL_ENCODING)
                                                        : (o.method ? POINT_CLOUD_KD_TREE_ENCODING : POINT_CLOUD_SEQUENTIAL_ENCODING));
+    if (o.submethod >= 0) enc.options().SetGlobalInt("edgebreaker_method", o.submethod);
     // the type-keyed API: one setting per attribute type (first attribute of the type decides)
     std::set<int> seen;
     for (int a = 0; a < (int)o.qbits.size(); ++a) {
